@@ -242,6 +242,10 @@ class ArrayKernelTranslator(pyloops.MapKernelTranslator):
             return TYield(vals)
 
         tree = TLet(OK, Ex("const", BOOL, (), True), self.block(stmts, env, [], leaf, None))
+        taken = set(self.assigned(stmts)) | self.param_names
+        for n in self.locals_arr:
+            if set(self.x.arrays[n].dims) & (taken - {n}) and self.x.arrays[n].dims[0].startswith(n):
+                self.bad(f"a local is named like an extent of `{n}` ({self.x.arrays[n].dims})")
         k = ScanKernel(fn.name, self.lean_name, self.params, lean_params, self.x.arrays, names, tree, notes=self.notes)
         try:
             k.source = ast.unparse(fn)
